@@ -29,10 +29,10 @@ EXPLANATION = ('Decides for all inputs that enabling glam-assert never changes a
                '2e-4 tolerance along operation chains depends on accumulated rounding and is not decided.')
 LEVEL_NOTE = 'Decides "assertions never change results", the presence/operands of documented assertions and that producers / internal callers meet the preconditions exactly in real arithmetic; not rounding accumulation against the tolerances. Trusted: rustc MIR, intrinsic table.'
 
-PAIRS_QUICK = [('sse2', 'assert'), ('scalar', 'scalar-assert')]
+PAIRS_QUICK = [('sse2', 'assert'), ('scalar', 'scalar-assert'), ('coresimd', 'coresimd-assert'), ('neon', 'neon-assert'), ('wasm32', 'wasm32-assert')]
 POST_QUICK = ['sse2', 'scalar', 'coresimd', 'neon', 'wasm32']
 POST_THOROUGH = ['sse2', 'scalar', 'coresimd', 'neon', 'wasm32']
-PAIRS_THOROUGH = [('sse2', 'assert'), ('scalar', 'scalar-assert')]
+PAIRS_THOROUGH = [('sse2', 'assert'), ('scalar', 'scalar-assert'), ('coresimd', 'coresimd-assert'), ('neon', 'neon-assert'), ('wasm32', 'wasm32-assert')]
 
 
 def doc_promises():
@@ -220,6 +220,7 @@ def run(ctx):
     prom_idx = {}
     for (f, n, l) in promises:
         prom_idx.setdefault((f, n), []).append(l)
+    cross = {}
     for (base, asrt) in pairs:
         if base not in cfgs or asrt not in cfgs:
             continue
@@ -277,9 +278,27 @@ def run(ctx):
                     ctx.holds('R-PRECOND', pair, name)
                 else:
                     ctx.violation('R-PRECOND', pair, name, {'file': it['file'], 'line': it['line'], 'problem': 'rustdoc promises a glam_assert panic but the assert build adds no assertion over the operands of this function'})
+        # the same function in another backend asserts the same precondition whenever the condition tests the operands directly
+        for (fam, mname_, argc_), lst in shapes.items():
+            for (nm_, it_, sh_) in lst:
+                if not any('E[' in x for x in sh_):
+                    tn_ = (it_.get('self_ty') or '').lstrip('&').rsplit('::', 1)[-1]
+                    cross.setdefault((tn_, mname_, argc_), []).append((pair, nm_, it_, sh_))
         # R-PRECOND-SIB: the same-named operation asserts the same precondition on every sibling type (shape of the condition, lanes collapsed)
         n_sib = 0
         for (fam, mname_, argc_), lst in sorted(shapes.items()):
+            if len(lst) == 2:
+                # two siblings only (Quat / DQuat, Mat4 / DMat4 projections): they must agree, unless one is a hand-scheduled SIMD implementation
+                (n0, i0, s0), (n1, i1, s1) = lst
+                simd_ = [(base != 'scalar') and i_['file'].split('/')[2:3] and i_['file'].split('/')[2] in ('sse2', 'neon', 'wasm32', 'coresimd') for i_ in (i0, i1)]
+                for (nm_, it_, sh_) in lst:
+                    n_sib += 1
+                    if s0 != s1 and not any(simd_):
+                        ctx.violation('R-PRECOND-SIB', pair, nm_, {'file': it_['file'], 'line': it_['line'],
+                                      'problem': 'the two sibling types assert different preconditions for %s' % mname_, 'one': list(s0)[:3], 'other': list(s1)[:3]})
+                    else:
+                        ctx.holds('R-PRECOND-SIB', pair, nm_)
+                continue
             if len(lst) < 3:
                 continue
             from collections import Counter
@@ -300,6 +319,18 @@ def run(ctx):
         ctx.count('functions_gaining_panic_sites:' + pair, n_gain)
         ctx.floor('internally established normalisation preconditions (%s)' % pair,
                   sum(1 for o in ctx.obligations if o[0] == 'R-PRECOND-INT' and o[1] == pair), 12)
+    for (tn_, mname_, argc_), lst in sorted(cross.items()):
+        if len(lst) < 2:
+            continue
+        from collections import Counter
+        cnt = Counter(sh for (_p, _n, _i, sh) in lst)
+        major, mc = cnt.most_common(1)[0]
+        for (pair_, nm_, it_, sh) in lst:
+            if sh != major and mc > cnt[sh]:
+                ctx.violation('R-PRECOND-SIB', pair_, nm_, {'file': it_['file'], 'line': it_['line'],
+                              'problem': 'this backend asserts a different precondition for %s::%s than %d of the %d builds' % (tn_, mname_, mc, len(lst)), 'here': list(sh)[:3], 'elsewhere': list(major)[:3]})
+            else:
+                ctx.holds('R-PRECOND-SIB', pair_, nm_ + ' (across backends)')
     # is_normalized: |len^2 - 1| <= tau, one tau per scalar width
     for cfg in [p[0] for p in pairs if p[0] in cfgs]:
         F = ctx.facts(cfg)
